@@ -24,6 +24,7 @@ type GenConfig struct {
 	CoarseTick bool // coarse capture clock
 	Jumble     bool // capture files that are not sorted by time
 	Chatty     bool // now and then a flow of thousands of tiny alternating messages
+	Talkative  bool // one flow of 60-150 tiny alternating messages (a converter is fed many lines for it)
 	LateStarts bool // most conversations start late: later capture files hold more streams than earlier ones (merge cascades)
 }
 
@@ -201,6 +202,15 @@ func Gen(r *rand.Rand, cfg GenConfig) *Spec {
 			spec.Convs = append(spec.Convs, x)
 			break
 		}
+	}
+	if cfg.Talkative {
+		tk := ConvSpec{Proto: "udp", Seed: r.Uint64(), Client: fmt.Sprintf("10.0.2.%d:%d", 30+r.IntN(5), 42000+r.IntN(1000)), Server: "10.1.0.7:80", StartUS: r.Int64N(horizon), StepUS: 50}
+		// more input than a pipe buffers (64 KiB): whoever feeds it to a process
+		// that stopped reading gets a write error, not a full buffer
+		for j, m := 0, 100+r.IntN(60); j < m; j++ {
+			tk.Msgs = append(tk.Msgs, MsgSpec{Dir: j % 2, Len: 500 + r.IntN(400), GapUS: int64(60_000 + r.IntN(100_000))})
+		}
+		spec.Convs = append(spec.Convs, tk)
 	}
 	if cfg.Chatty && r.IntN(25) == 0 {
 		// thousands of direction changes in one stream: its segmentation table is
